@@ -295,7 +295,7 @@ class Fn:
     def loc(self, bi, si=None):
         blk = self.blocks[bi]
         file = blk.get("file") or self.b["loc"]["file"]
-        if si is None or si == "term":
+        if si is None or not isinstance(si, int):
             return "%s:%d" % (file, blk["term"]["line"])
         return "%s:%d" % (file, blk["stmts"][si]["line"])
 
